@@ -12,12 +12,25 @@ import (
 	"go.opentelemetry.io/otel/trace"
 )
 
-func labelledCtx(label int) context.Context {
-	sc := trace.NewSpanContext(trace.SpanContextConfig{
-		TraceID: trace.TraceID{1, 2, 3, 4, 5, 6, 7, 8, 9, 10, 11, 12, 13, 14, 15, byte(label)},
-		SpanID:  trace.SpanID{0, 0, 0, 0, 0, 0, 0, byte(label)},
-	})
-	ctx := trace.ContextWithSpanContext(context.Background(), sc)
+// spanVariant: which span each of the three context labels carries (0 = no span at all).
+// Contexts are always distinct objects; they may share a span (one traced request fanned out into
+// several derived contexts) or carry none.
+var spanVariants = [][]int{
+	{0, 1, 2, 3}, // distinct spans
+	{0, 1, 1, 2}, // contexts 1 and 2 share a span
+	{0, 1, 1, 1}, // all three share one span
+	{0, 0, 1, 0}, // only context 2 is traced
+}
+
+func labelledCtxSpan(label, span int) context.Context {
+	ctx := context.Background()
+	if span != 0 {
+		sc := trace.NewSpanContext(trace.SpanContextConfig{
+			TraceID: trace.TraceID{1, 2, 3, 4, 5, 6, 7, 8, 9, 10, 11, 12, 13, 14, 15, byte(span)},
+			SpanID:  trace.SpanID{0, 0, 0, 0, 0, 0, 0, byte(span)},
+		})
+		ctx = trace.ContextWithSpanContext(ctx, sc)
+	}
 	return context.WithValue(ctx, cbp.VerifCtxKey{}, label)
 }
 
@@ -29,67 +42,78 @@ func coqNList(xs []int) string {
 	return "[" + strings.Join(ss, ";") + "]"
 }
 
-// runCtx enumerates every contributor pattern of length 1..maxLen over nLabels contexts.
+// runCtx enumerates every contributor pattern of length 1..maxLen over 3 contexts, for every span variant.
 func runCtx(maxLen, nLabels int, out *Output) {
-	ctxs := make([]context.Context, nLabels+1)
-	for i := 1; i <= nLabels; i++ {
-		ctxs[i] = labelledCtx(i)
-	}
 	var sb strings.Builder
-	sb.WriteString("Definition ctx_cases : list (list N * option plan) := [\n")
+	sb.WriteString("Definition ctx_cases : list (list N * list N * bool * N * list N) := [\n")
 	first := true
-	n := 0
-	var rec func(pat []int)
-	emit := func(pat []int) {
-		cs := make([]context.Context, len(pat))
-		for i, l := range pat {
-			cs[i] = ctxs[l]
+	for vi, variant := range spanVariants {
+		ctxs := make([]context.Context, nLabels+1)
+		for i := 1; i <= nLabels; i++ {
+			ctxs[i] = labelledCtxSpan(i, variant[i])
 		}
-		same := cbp.VerifAllSameContext(cs)
-		var plan string
-		obs := map[string]any{"pattern": append([]int{}, pat...), "all_same": same}
-		if same {
-			plan = fmt.Sprintf("Some {| p_ctx := FromCaller %d; p_links := [] |}", pat[0])
-			obs["export_ctx"] = fmt.Sprintf("caller %d", pat[0])
-		} else {
-			spans := cbp.VerifParentSpans(cs)
-			links := make([]int, len(spans))
-			for i, s := range spans {
-				sid := s.SpanContext().SpanID()
-				links[i] = int(sid[7])
+		var rec func(pat []int)
+		emit := func(pat []int) {
+			cs := make([]context.Context, len(pat))
+			for i, l := range pat {
+				cs[i] = ctxs[l]
 			}
-			plan = fmt.Sprintf("Some {| p_ctx := FromShard; p_links := %s |}", coqNList(links))
-			obs["export_ctx"] = "shard"
-			obs["links"] = links
+			same := cbp.VerifAllSameContext(cs)
+			obs := map[string]any{"pattern": append([]int{}, pat...), "spans_of_ctx": variant[1:], "all_same": same}
+			caller := 0
+			var links []int
+			if same {
+				caller = pat[0]
+				obs["export_ctx"] = fmt.Sprintf("caller %d", pat[0])
+			} else {
+				spans := cbp.VerifParentSpans(cs)
+				links = make([]int, len(spans))
+				for i, s := range spans {
+					sid := s.SpanContext().SpanID()
+					links[i] = int(sid[7])
+				}
+				obs["export_ctx"] = "shard"
+				obs["links"] = links
+			}
+			if !first {
+				sb.WriteString(";\n")
+			}
+			first = false
+			fmt.Fprintf(&sb, " (%s, %s, %v, %d, %s)", coqNList(pat), coqNList(variant), same, caller, coqNList(links))
+			distinct := map[int]bool{}
+			for _, l := range pat {
+				distinct[l] = true
+			}
+			out.AddCase(obs, len(distinct) > 1, fmt.Sprintf("variant=%d len=%d distinct=%d", vi, len(pat), len(distinct)))
 		}
-		if !first {
-			sb.WriteString(";\n")
+		rec = func(pat []int) {
+			if len(pat) > 0 {
+				emit(pat)
+			}
+			if len(pat) == maxLen {
+				return
+			}
+			for l := 1; l <= nLabels; l++ {
+				rec(append(pat, l))
+			}
 		}
-		first = false
-		fmt.Fprintf(&sb, " (%s, %s)", coqNList(pat), plan)
-		distinct := map[int]bool{}
-		for _, l := range pat {
-			distinct[l] = true
-		}
-		out.AddCase(obs, len(distinct) > 1, fmt.Sprintf("len=%d distinct=%d", len(pat), len(distinct)))
-		n++
+		rec(nil)
 	}
-	rec = func(pat []int) {
-		if len(pat) > 0 {
-			emit(pat)
-		}
-		if len(pat) == maxLen {
-			return
-		}
-		for l := 1; l <= nLabels; l++ {
-			rec(append(pat, l))
-		}
-	}
-	rec(nil)
 	sb.WriteString("\n].\n")
-	sb.WriteString(`Definition ctx_check (c : list N * option plan) : bool := oplan_eqb (export_plan (fst c)) (snd c).
-Definition ctx_prop (c : list N * option plan) : bool :=
-  match snd c with Some p => isolation_okb (fst c) p | None => false end.
+	sb.WriteString(`(* case = (contributor contexts, span carried by context i (0 = none), observed allSameContext,
+   observed caller context (0 = shard), observed linked spans) *)
+Definition ctx_check (c : list N * list N * bool * N * list N) : bool :=
+  let '(pat, spans, same, caller, links) := c in
+  match export_plan pat with
+  | Some {| p_ctx := FromCaller d; p_links := _ |} => same && N.eqb caller d
+  | Some {| p_ctx := FromShard; p_links := ls |} =>
+      negb same && list_eqb N.eqb (map (fun l => nth (N.to_nat l) spans 0) ls) links
+  | None => false
+  end.
+Definition ctx_prop (c : list N * list N * bool * N * list N) : bool :=
+  let '(pat, spans, same, caller, links) := c in
+  if same then forallb (N.eqb caller) pat
+  else forallb (fun l => existsb (N.eqb (nth (N.to_nat l) spans 0)) links) pat.
 Definition ctx_mismatch := Eval vm_compute in failing ctx_check ctx_cases.
 Definition ctx_propfail := Eval vm_compute in failing ctx_prop ctx_cases.
 Print ctx_mismatch.
